@@ -212,6 +212,11 @@ func (s *Spec) govOps(st *explore.State) []explore.Op {
 	ch := s.Chains[0]
 	if n <= 2 { // at most two proposals ever
 		kinds := []string{"params", "failing", "storeCAS", "text"}
+		if n <= 1 {
+			// per-message-type rules for the type of the "params" proposal, in every shape a stored entry can take: a later
+			// proposal of that type is activated, timed and tallied with whatever got stored
+			kinds = append(kinds, "custom(valid)", "custom(empty-quorum)", "custom(empty-ratio)", "custom(no-period)", "custom(zero-period)", "custom(zero-quorum)", "custom(all-empty)")
+		}
 		for _, kind := range kinds {
 			kind := kind
 			ops = append(ops, explore.Op{Name: "GovPass(" + kind + ")", Run: func(c *explore.State) {
@@ -227,6 +232,25 @@ func (s *Spec) govOps(st *explore.State) []explore.Op {
 				case "storeCAS":
 					msgs = []sdk.Msg{&fxgovtypes.MsgUpdateStore{Authority: world.GovAuthority(), UpdateStores: []fxgovtypes.UpdateStore{{Space: "eth", Key: "ff", OldValue: "01", Value: "02"}}}}
 				case "text":
+				default: // custom(...)
+					hour := time.Hour
+					zero := time.Duration(0)
+					cp := fxgovtypes.CustomParams{DepositRatio: "0.1", VotingPeriod: &hour, Quorum: "0.3"}
+					switch kind {
+					case "custom(empty-quorum)":
+						cp.Quorum = ""
+					case "custom(empty-ratio)":
+						cp.DepositRatio = ""
+					case "custom(no-period)":
+						cp.VotingPeriod = nil
+					case "custom(zero-period)":
+						cp.VotingPeriod = &zero
+					case "custom(zero-quorum)":
+						cp.Quorum = "0"
+					case "custom(all-empty)":
+						cp = fxgovtypes.CustomParams{}
+					}
+					msgs = []sdk.Msg{&fxgovtypes.MsgUpdateCustomParams{Authority: world.GovAuthority(), MsgUrl: sdk.MsgTypeURL(&cctypes.MsgUpdateParams{}), CustomParams: cp}}
 				}
 				var anys []*codectypes.Any
 				for _, m := range msgs {
